@@ -62,6 +62,33 @@ func (w *concWorld) submit(ops []*Op) {
 	}
 }
 
+// abandonOne is the scheduler action "a client gives up on a request that is in flight": with a drawn
+// probability it cancels the context of one started, unfinished request (decision 0 = nobody gives up).
+func (w *concWorld) abandonOne(s *Sched) bool {
+	if w == nil || !w.abandon {
+		return false
+	}
+	var live []*Task
+	for _, tk := range w.tasks {
+		if tk.Started && !tk.Done && !tk.Cancelled && tk.Cancel != nil {
+			live = append(live, tk)
+		}
+	}
+	if len(live) == 0 {
+		return false
+	}
+	k := w.rc.Ch.Pick(len(live)+1, 0.8)
+	if k == 0 {
+		return false
+	}
+	tk := live[k-1]
+	tk.Cancelled = true
+	w.rc.Stats.Inc("client_abandons_request_in_flight", 1)
+	w.rc.Logf("s%d client abandons %s", s.Step, tk.Name)
+	tk.Cancel()
+	return true
+}
+
 // genConcOps draws a small set of operations over few keys with epochs close together, so that
 // the order in which they are processed matters.
 func genConcOps(rc *RunCtx, nKeys, nOps int, withOdd bool) []*Op {
@@ -367,30 +394,7 @@ func runConc(t *testing.T, rc *RunCtx, prop string) {
 	cfg := SchedCfg{StayBias: stay, MaxSteps: 8 * budget, DeadlockProperty: prop}
 	var w *concWorld
 	if abandon {
-		cfg.Action = func(s *Sched, parked []*Park) bool {
-			if !w.abandon {
-				return false
-			}
-			var live []*Task
-			for _, tk := range w.tasks {
-				if tk.Started && !tk.Done && !tk.Cancelled && tk.Cancel != nil {
-					live = append(live, tk)
-				}
-			}
-			if len(live) == 0 {
-				return false
-			}
-			k := ch.Pick(len(live)+1, 0.8)
-			if k == 0 {
-				return false
-			}
-			tk := live[k-1]
-			tk.Cancelled = true
-			rc.Stats.Inc("client_abandons_request_in_flight", 1)
-			rc.Logf("s%d client abandons %s", s.Step, tk.Name)
-			tk.Cancel()
-			return true
-		}
+		cfg.Action = func(s *Sched, parked []*Park) bool { return w.abandonOne(s) }
 	}
 	w = newW1(t, rc, cfg, nil)
 	defer w.close()
